@@ -377,7 +377,10 @@ class Histogram1D(ObjectWithBinning, HistogramBase):
         Note: If a gap in unconsecutive bins is matched, underflow & overflow are not valid anymore.
         Note: Name was selected because of the eponymous method in ROOT
         """
-        if np.isscalar(value) and value != value:
+        if not np.isscalar(value):
+            # Refuse before an adaptive binning gets extended
+            raise ValueError(f"Non-scalar value for 1D histogram: {value}")
+        if value != value:
             return None  # NaN values are skipped (as in fill_n and in construction)
         self._coerce_dtype(type(weight))
         if self._binning.is_adaptive():
@@ -424,10 +427,11 @@ class Histogram1D(ObjectWithBinning, HistogramBase):
         values_array, array_mask = extract_1d_array(values, dropna=dropna)
         if values_array.size == 0:
             return  # Nothing to add (adaptive binnings may not even have a bin yet)
+        # Weights are checked before an adaptive binning gets extended
+        weights_array = extract_weights(weights, array_mask=array_mask)
         if self._binning.is_adaptive():
             map = self._binning.force_bin_existence(values_array)
             self._reshape_data(self._binning.bin_count, map)
-        weights_array = extract_weights(weights, array_mask=array_mask)
         if weights_array is not None:
             self._coerce_dtype(weights_array.dtype)
         (frequencies, errors2, underflow, overflow, stats) = calculate_1d_frequencies(
